@@ -283,6 +283,14 @@ main(int argc, char **argv)
 			cc.buflen = sc.buflen = big ? BR_SSL_BUFSIZE_INPUT : 512 + 325;
 			cc.buflen_out = sc.buflen_out = big ? BR_SSL_BUFSIZE_OUTPUT : 512 + 85;
 		}
+		if (conf >= 9 && conf <= 11) {
+			/* in-between sizes, input and output parts in different fragment-length classes: a half-duplex buffer of the
+			   2048 class, a 4096-byte buffer split by the engine (input 3499 / output 597), a full-size input buffer
+			   with a minimum output buffer */
+			if (layout == TP_LAYOUT_MONO) cc.buflen = sc.buflen = 2048 + 325;
+			else if (layout == TP_LAYOUT_SPLIT1) cc.buflen = sc.buflen = 4096;
+			else { cc.buflen = sc.buflen = BR_SSL_BUFSIZE_INPUT; cc.buflen_out = sc.buflen_out = 512 + 85; }
+		}
 		if (conf == 1 || conf == 2 || conf == 6) {   /* the three layouts at minimum size */
 			/* client authentication; the client keeps full-size buffers whatever the server has, so that a small
 			   server receives unencrypted handshake records (certificate chain) larger than its whole input buffer */
@@ -306,7 +314,7 @@ main(int argc, char **argv)
 		}
 		W.c.tx_key = 0x1111 + (uint64_t)conf; W.s.tx_key = 0x2222 + (uint64_t)conf;
 		W.c.rx_key = W.s.tx_key; W.s.rx_key = W.c.tx_key;
-		vf_distinct("config", "%04x/%04x/l%d/b%d/ca%d", sl[0], mode_ver[mode], layout, big, cc.client_auth);
+		vf_distinct("config", "%04x/%04x/l%d/b%d/ca%d/%zu+%zu", sl[0], mode_ver[mode], layout, big, cc.client_auth, sc.buflen, sc.buflen_out);
 
 		/* handshake phase: explore from every stride-th pump step */
 		for (;;) {
